@@ -268,29 +268,69 @@ func startClass(s string) string {
 	return "start=other"
 }
 
-// lineCase: the verdict of processor.Process on the line against the decoder's verdict on the whole line; then a
-// bulk [valid, line, valid] through the real handler against the same expectation.
+// rfcKind: what the property demands for a line, by RFC 8259 validity of the whole line (encoding/json.Valid):
+// 0 = valid JSON object (stored), 1 = valid JSON of another type (skipped), 2 = not valid JSON (the bulk is rejected).
+func rfcKind(doc []byte) int {
+	if !json.Valid(doc) {
+		return 2
+	}
+	t := strings.TrimLeft(string(doc), " \t\r\n")
+	if strings.HasPrefix(t, "{") {
+		return 0
+	}
+	return 1
+}
+
+var verdictNames = []string{"stored", "skipped", "bulk-rejected"}
+
+const (
+	lenientSite  = "proxy/bulk/processor.go:Process"
+	lenientClass = "invalid-json-accepted-by-lenient-decoder"
+)
+
+// reportLenient: the code's decoder (insane-json) accepts a line that is not valid JSON.  One narrow signature for
+// every such line, whichever path saw it.
+func reportLenient(rep *vh.Report, doc []byte, decoder int) {
+	violate(rep, vh.Violation{Site: lenientSite, Class: lenientClass,
+		What: fmt.Sprintf("line %q is not valid JSON (RFC 8259, encoding/json.Valid): the request must be rejected, but the decoder accepts it and the line is %s",
+			doc, verdictNames[decoder]), Replay: []string{"line " + hex.EncodeToString(doc)}})
+}
+
+// lineCase: the property's verdict on a line is its RFC 8259 validity.  Process must (1) decide by the decoder's
+// verdict on the whole line - otherwise `line-verdict-not-by-validity` - and (2) that verdict must be the RFC one -
+// where the decoder is more lenient the narrow `invalid-json-accepted-by-lenient-decoder` is reported (a decoder
+// that rejects valid JSON is `valid-json-rejected-by-decoder`).  The same line then goes between two valid
+// documents through the real handler; for a lenient line the bulk is held to the decoder's verdict so that
+// everything else (bytes, counts, store calls) is still checked.
 func lineCase(line string, chProc *vh.Channel, orc, orcProp *vh.Oracle, rep *vh.Report) {
 	doc := []byte(line)
-	want := bulk.VerifJSONKind(doc)
+	rfc := rfcKind(doc)
+	dec := bulk.VerifJSONKind(doc)
 	got := bulk.VerifProcessKind(doc)
-	names := []string{"stored", "skipped", "bulk-rejected"}
-	lenient := ""
-	if (want != 2) != json.Valid(doc) {
-		lenient = "decoder-differs-from-encoding/json"
-	}
-	tags := []string{startClass(line), "verdict=" + names[want]}
-	if lenient != "" {
-		tags = append(tags, lenient)
+	tags := []string{startClass(line), "rfc=" + verdictNames[rfc]}
+	if dec != rfc {
+		tags = append(tags, "decoder-differs-from-rfc")
 	}
 	replay := "line " + hex.EncodeToString(doc)
-	orc.Case(replay, want == 2 && startClass(line) != "start={" && startClass(line) != "start=other", tags...)
-	if got != want {
+	orc.Case(replay, rfc == 2 && startClass(line) != "start={" && startClass(line) != "start=other", tags...)
+	switch {
+	case got != dec:
 		violate(rep, vh.Violation{Site: "proxy/bulk/processor.go:Process", Class: "line-verdict-not-by-validity",
-			What:   fmt.Sprintf("line %q: Process says %s, the JSON decoder on the whole line says %s", line, names[got], names[want]),
+			What:   fmt.Sprintf("line %q: Process says %s, the JSON decoder on the whole line says %s, RFC 8259 validity says %s", line, verdictNames[got], verdictNames[dec], verdictNames[rfc]),
 			Replay: []string{replay}})
+	case dec != rfc && rfc == 2:
+		reportLenient(rep, doc, dec)
+	case dec != rfc:
+		violate(rep, vh.Violation{Site: "proxy/bulk/processor.go:Process", Class: "valid-json-rejected-by-decoder",
+			What: fmt.Sprintf("line %q is valid JSON (%s by the property) but the decoder's verdict is %s", line, verdictNames[rfc], verdictNames[dec]), Replay: []string{replay}})
 	}
-	kind := []docKind{dObject, dNonObject, dInvalid}[want]
+	// handler level: judged by RFC validity, except that a line already reported above under its own signature is
+	// held to the verdict the code is known to give it
+	hold := rfc
+	if got == dec && dec != rfc {
+		hold = dec
+	}
+	kind := []docKind{dObject, dNonObject, dInvalid}[hold]
 	e0 := entry{action: `{"index":{}}`, aterm: "\n", term: "\n", doc: `{"k":"before"}`, tcat: tNone}
 	e1 := entry{action: `{"index":{}}`, aterm: "\n", term: "\n", doc: line, kind: kind, tcat: tUnknown}
 	e2 := entry{action: `{"create":{}}`, aterm: "\n", term: "\n", doc: `{"k":"after"}`, tcat: tNone}
